@@ -14,10 +14,12 @@ def reach_sets(step_charges, L, q_start):
     return R
 
 
-def gen_charges(rng, L, d, cls, style=None):
+def gen_charges(rng, L, d, cls, style=None, qd=None, q_start=None, qtot=None, maxD=4):
     """returns qd, qD (list of int lists) for a sector-consistent object of the given class"""
     style = style if style is not None else rng.choice(['u1', 'u1', 'u1', 'zero', 'sorted', 'pair', 'disjoint', 'repeated'])
-    if style == 'zero':
+    if qd is not None:
+        qd = [int(x) for x in qd]
+    elif style == 'zero':
         qd = [0] * d
     elif style == 'pair':        # encoded charge pairs as used by the Fermi-Hubbard / spin-orbital models
         base = [(0, 0), (1, -1), (1, 1), (2, 0)]
@@ -29,9 +31,11 @@ def gen_charges(rng, L, d, cls, style=None):
         if style == 'sorted':
             qd = sorted(qd)
     steps = qd if cls == 'mps' else sorted({a - b for a in qd for b in qd})
-    q_start = 0 if rng.random() < 0.7 else int(rng.integers(-1, 2))
+    if q_start is None:
+        q_start = 0 if rng.random() < 0.7 else int(rng.integers(-1, 2))
     R = reach_sets(steps, L, q_start)
-    qtot = int(rng.choice(sorted(R[L])))
+    if qtot is None or qtot not in R[L]:
+        qtot = int(rng.choice(sorted(R[L])))
     # co-reachable sets
     C = [None] * (L + 1)
     C[L] = {qtot}
@@ -40,7 +44,7 @@ def gen_charges(rng, L, d, cls, style=None):
     qD = [[q_start]]
     for i in range(1, L):
         ok = sorted(R[i] & C[i])
-        D = int(rng.integers(1, 5))
+        D = int(rng.integers(1, maxD + 1))
         if style == 'disjoint' and rng.random() < 0.5:
             qb = [int(max(R[i]) + 7 + k) for k in range(D)]          # unreachable charges: the zero state
         else:
